@@ -28,7 +28,10 @@ RULE = ("percent layouts over the grid {0,5,10,12.5,33.33,50,90,95,100} + random
         "language option is exercised (DFXP force= keyword / positional, known / unknown code; "
         "WebVTT lang= with a second language - with a layout of its own - listed before or "
         "after the written one); WebVTTWriter also runs with relativize=False (legal for "
-        "percentages). ")
+        "percentages). "
+        "A quarter of the DFXP cases hold twin layouts: two origins / extents with the same "
+        "hash (offsets found by probing the library's __hash__), or the same two numbers as an "
+        "origin-only and an extent-only layout. ")
 ASSUMPTIONS = [
     "layout values have at most two decimals (printing is lossless)",
     "WebVTT arithmetic is judged for layouts that have an origin (the quantified domain)",
